@@ -50,7 +50,7 @@ pub struct Query {
     /// 0 exists, 1 find_offset, 2 extract
     pub op: u8,
     /// 0 stored, 1 stored with case flips, 2 absent name in stored folder, 3 stored name in absent folder,
-    /// 4 other category, 5 other repository, 6 unknown category
+    /// 4 other category, 5 other repository, 6 unknown category, 7 folder of one stored file + name of another
     pub kind: u8,
     pub pick: u16,
     pub flips: Vec<u16>,
@@ -100,7 +100,7 @@ fn chunk_spec() -> BoxedStrategy<Chunk> {
 }
 
 fn query() -> BoxedStrategy<Query> {
-    (0u8..3, prop_oneof![3 => Just(0u8), 3 => Just(1u8), 1 => 2u8..7], any::<u16>(), vec(any::<u16>(), 1..6), component()).prop_map(|(op, kind, pick, flips, salt)| Query { op, kind, pick, flips, salt }).boxed()
+    (0u8..3, prop_oneof![3 => Just(0u8), 3 => Just(1u8), 1 => 2u8..7, 1 => Just(7u8)], any::<u16>(), vec(any::<u16>(), 1..6), component()).prop_map(|(op, kind, pick, flips, salt)| Query { op, kind, pick, flips, salt }).boxed()
 }
 
 fn strategy(_: &Ctx) -> BoxedStrategy<Case> {
@@ -344,6 +344,12 @@ fn query_path(q: &Query, m: &Model) -> String {
             } else {
                 format!("{}/ex{}/{}", cat, others[util::pick_idx(q.flips[0], others.len())], rest)
             }
+        }
+        7 => {
+            // the folder of one stored file with the file name of another: absent unless it happens to be stored
+            let t = &m.stored[util::pick_idx(q.flips[0], m.stored.len())];
+            let tp = t.path.rfind('/').unwrap();
+            format!("{}/{}", &s.path[..p], &t.path[tp + 1..])
         }
         _ => format!("{}x/{}", q.salt, &s.path[p + 1..]),
     }
